@@ -45,7 +45,7 @@ def fix_triangles(s):
 
 def gen_cases(seed, tier):
     rng = np.random.default_rng([seed, 6])
-    n = 320 if tier == "quick" else 3000
+    n = 320 if tier == "quick" else 10000
     depth = 2 if tier == "quick" else 3
     cases = []
     while len(cases) < n:
